@@ -8,6 +8,7 @@ import WhVerif.Lemmas.C07Pop
 import WhVerif.Lemmas.C07CompleteReplay
 import WhVerif.Lemmas.C07Pipe
 import WhVerif.Lemmas.C07Pref
+import WhVerif.Lemmas.C07Opts
 /-!
 # C07 — read selection never exceeds the coverage cap and leaves no admissible read out
 
@@ -446,6 +447,29 @@ theorem family_member_maximal (k : Int) (members : List MemberIn) (os : List Sam
   obtain ⟨_, hall⟩ := familyStageSel_spec k members.length members os h
   have hst := hall x o hxo
   exact ⟨(stage_subset _ _ _ _ _ hst).1, stage_maximal _ _ _ _ _ hst⟩
+
+/-- **the cap of the run is `--internal-downsampling`** (`add_arguments` / `validate` / `main`): whenever the command line
+is accepted, the `max_coverage` that `run_whatshap` gets is the value of the LAST `--internal-downsampling` occurrence
+(15 if the option is absent), it is at most 23, and the per-sample share derived from it is at most 23 -/
+theorem option_cap (a : PhaseArgs) (k : Int) (h : validateCap a = .ok k) :
+    k = lastOr a.internalDownsampling 15 ∧ k ≤ 23 ∧ capAccepted k = true ∧ ∀ m, perSampleCapInt k m ≤ 23 := by
+  have hk := validateCap_ok a k h
+  obtain ⟨rfl, hacc⟩ := hk
+  refine ⟨rfl, ?_, hacc, fun m => (per_sample_share _ m).2.2.2.2 hacc⟩
+  simpa [capAccepted] using hacc
+
+example : (validateCap { internalDownsampling := [3, 5], legacyMaxCoverage := [40], reference := true }).toOption = some 5 ∧
+    (validateCap { legacyMaxCoverage := [40] }).toOption = some 15 ∧
+    (validateCap { internalDownsampling := [24] }).toOption = none ∧
+    (validateCap { internalDownsampling := [24, 4] }).toOption = some 4 ∧
+    (validateCap { internalDownsampling := [4, 24] }).toOption = none ∧
+    (validateCap { internalDownsampling := [-2], legacyMaxCoverage := [99, 7] }).toOption = some (-2) := by decide
+
+/-- **the hidden legacy option `-H` / `--max-coverage` has no effect** on acceptance or on the cap, whatever values it is
+given and however often; neither has the hidden `--indels` -/
+theorem legacy_options_without_effect (a : PhaseArgs) (hs : List Int) (ind : Bool) :
+    validateCap { a with legacyMaxCoverage := hs, indels := ind } = validateCap a := by
+  rfl
 
 /-- a trio with 3 identical two-variant reads per member, `--internal-downsampling 3`: one read per member -/
 def famEx : List MemberIn :=
